@@ -6,6 +6,26 @@ claimed = subprocess.run([os.path.join(V, "check"), "--list"], stdout=subprocess
 
 # id -> (category, level text, level note, technique, design ref)
 T = {
+ "C01": ("exploration",
+         "Model-based property testing (rapid state machine) on a generated world of real descriptors (TCP conns, adapters, FIFO ends, listener, packet conn) with raw peers owned by the harness: the harness decides the composition and order of every poll batch (readiness settled with poll(2)), both completion paths are reached for real (32 nested inline completions, filled buffers), handlers cancel/close/re-arm other objects; per-operation completion counts, Cancel/Close contracts and a count-bounded final drain are checked. Bounded search over schedules, not a proof.",
+         "Trusts poll(2) on RawFd() as the readiness oracle and the harness's raw peers; one read and one write in flight per object; AsyncAdapter writes limited to what fits the socket buffer.",
+         "stateful property-based testing with harness-controlled poll batches (rapid)", "DESIGN.md §4 C01"),
+ "C02": ("exploration",
+         "Property testing (rapid) of stream pairs with position-dependent bytes in both directions: generated read/write sizes and peer chunk sizes force partial transfers and would-block in the middle of *All operations; every completion's bytes, counts and the peer's received stream are checked against the generator stream. Bounded search.",
+         "Trusts the position-dependent byte generator and the raw peer sockets; AsyncAdapter writes limited to what fits the socket buffer (net.Conn.Write blocks otherwise).",
+         "round-trip property-based testing over real sockets (rapid)", "DESIGN.md §4 C02"),
+ "C03": ("exploration",
+         "Model-based property testing (rapid): after every step of generated histories (ops, peer actions, cancels, closes, timers, posts, failing registrations) IO.Pending() is compared with an independent shadow ledger; RunPending is run under a watchdog at the end; a separate generated test interrupts waits with real signals (tgkill). Bounded search.",
+         "Trusts the shadow ledger (ops whose callback has not run, armed timers, posted handlers) and the 10 s watchdog (normal case < 50 ms); Post from inside posted handlers is left to C05.",
+         "stateful property-based testing against a shadow ledger + signal injection (rapid)", "DESIGN.md §4 C03"),
+ "C04": ("exploration",
+         "Model-based property testing (rapid) with real timerfds: generated schedules/cancels/closes from top level and from handlers of other timers and of a socket in the same poll batch; per-schedule ids decide which callbacks may run; one-sided timing oracle (elapsed >= delay - 50us, monotonic clock) and count-bounded liveness after sleeping past the deadlines. Bounded search in real time (1..15 ms delays).",
+         "Real time cannot be virtualised without rewriting the code under test: tolerance 50 us, liveness margin 5 ms; load only lengthens sleeps (safe direction).",
+         "stateful property-based testing with a per-schedule reference model (rapid)", "DESIGN.md §4 C04"),
+ "C14": ("exploration",
+         "Property testing (rapid): generated chains (up to 200 links) of immediately completable operations over a mix of object kinds, each link issued from the previous completion; harness nesting counter, per-link results by construction, IO.Dispatched at rest and a PollOne budget are checked. Bounded search.",
+         "Everything a link needs is buffered in the kernel beforehand; known finding regular-file-deferred is excluded by construction (counted) and probed separately.",
+         "property-based testing of generated operation chains (rapid)", "DESIGN.md §4 C14"),
  "C06": ("exploration",
          "Differential + reference-model property testing (rapid): generated message lists, fragmentations, interleaved control frames and byte-stream segmentations are delivered through a scripted transport to all four read APIs (async completions inline or parked); every delivery is compared with the generated reference and across APIs and two segmentations. Bounded search.",
          "Trusts the independent RFC 6455 encoder in harness/internal/rfc6455, the scripted transport harness/internal/memstream and the verif-tagged VerifAttach hook (state=Active + init, what in-package tests do).",
